@@ -38,13 +38,14 @@ SPEC = dict(
             I('form_ref_1s_empty', 'h_form_empty_value', (), bound='FORM_TYPE + one text-single field with the empty value (regression for fix 13f5df9)'),
         ]),
         dict(name='mgr', harness='h_mgr.cpp', tus=['src/base/QXmppDataForm.cpp', 'src/base/QXmppDiscoveryIq.cpp', 'src/base/QXmppIq.cpp', 'src/base/QXmppStanza.cpp', 'src/client/QXmppClient.cpp'],
-             models=MODELS + ['c20_mgr_models.c'], cxxdefs={}, loop_bounds={}, instances=[
+             models=MODELS + ['c20_mgr_models.c'], cxxdefs={'C20_REPLY_HASH': 1}, loop_bounds={}, instances=[
             # n = (identities, features) of the arbitrary info set returned by the cut capabilities()
             I('handle_info_nonode', 'h_handle_info', (1, 2, 0), bound='info set with 1 identity and 2 features; query without node'),
             I('handle_info_prefix', 'h_handle_info', (1, 2, 1), bound='info set with 1 identity and 2 features; node "abB" under capabilities node "ab"'),
             I('handle_info_foreign', 'h_handle_info', (1, 2, 3), bound='node "ba" under capabilities node "ab": refused'),
             I('presence_caps_1_2', 'h_presence_caps', (1, 2), bound='info set with 1 identity and 2 features'),
             I('presence_caps_1_0', 'h_presence_caps', (1, 0), bound='info set with 1 identity'),
+            I('presence_caps_1_1', 'h_presence_caps', (1, 1), bound='info set with 1 identity and 1 feature'),
             I('handle_info_nonode_1_0', 'h_handle_info', (1, 0, 0), bound='info set with 1 identity; query without node'),
         ]),
     ],
